@@ -314,6 +314,7 @@ def gen_atx(c):
              csp=1 if c.canonical else t.weighted([(4, 1), (1, 3)]), trail='' if c.canonical else t.choice(['', '', '  ']))
 
 
+TITLE_HTMLISH = ['AT&T', 'a<b', '"q"', "it's", 'R&D', '<', '&', 'a&b;', '&amp', '<3', 'Q&A;']
 TITLE_WORDS = ['Intro', 'Usage', 'alpha', 'beta', 'Install', 'notes', 'API', 'x', 'Part', 'two', 'Background', 'more', 'Zed']
 
 
@@ -324,6 +325,21 @@ def outline_title(c):
     for _ in range(1 + t.below(4)):
         w = N('text', s=t.choice(TITLE_WORDS))
         k = t.below(12)
+        if c.o.get('outline_rich') and t.chance(70):
+            # plain text that is significant in HTML or that looks like a character reference
+            r = t.below(5)
+            if r == 0:
+                items.append(N('text', s=t.choice(TITLE_HTMLISH)))
+            elif r == 1:
+                src, dec = t.choice([e for e in ENTITIES if not e[1].isspace()])
+                items.append(N('entity', src=src, dec=dec))
+            elif r == 2:
+                items.append(N('escape', ch=t.choice(c.o.get('outline_escapable', ESCAPABLE)), tail=t.choice(['', 'amp;', 'lt;', 'x', '#35;'])))
+            elif r == 3:
+                items.append(N('code', content=t.choice(['<div>', '&amp;', 'a&b', 'x < y', '&lt;', '"q"']), extra=0))
+            else:
+                items.append(N('text', s=t.choice(TITLE_WORDS) + t.choice(['.', ',', ':', '!', '?', ';'])))
+            continue
         if k == 0:
             w = N('em', children=[w])
         elif k == 1:
